@@ -175,8 +175,8 @@ def def_use(source_text):
                     for tok in IDENT_RE.findall(rhs):
                         tok = tok.replace(" ", "")
                         base = tok.split(".")[0]
-                        if base in params or tok in CMATH or base in CMATH:
-                            continue
+                        if base in params or tok in CMATH or base in CMATH or re.fullmatch(r"M_[A-Z0-9_]+", tok):
+                            continue  # parameters, <cmath> functions and the M_* constants of <cmath> (M_PI, M_SQRT2, ...)
                         if base in declared:
                             continue
                         if re.fullmatch(r"[eE]\d*", tok):  # exponent of a float literal
